@@ -144,10 +144,9 @@ def c08_dialect(ctx):
            found=got)
 
 
-def c08_triples(ctx):
+def c08_triples(ctx, R="C08.2"):
     """wherever a (coin, puzzle, solution) triple is assembled from a CoinSpend the puzzle reveal is second and the solution third
     (both are byte strings: a swap compiles)"""
-    R = "C08.2"
     fb = ctx.fb
     n = 0
     bad = []
